@@ -226,6 +226,7 @@ type hWorld struct {
 
 	Funcs []*Func // built functions, index = spec ID
 
+	// Mode bits 32 (symbolic option spellings) and 64 (shadowed defaults on the target): see hBuildAll.
 	// Mode: template mode bits (8: symbolic complete earlier call on the same target,
 	// 16: all options are construction defaults)
 	Mode int
@@ -607,6 +608,36 @@ func (w *hWorld) hBuild(f hFuncSpec, opts ...Arg) (*Func, error) {
 	return nil, hErrBuild
 }
 
+// hValArg is the option that supplies value i. With mode bit 32 the spelling is
+// symbolic: the same labelled value can be written as NamedSubtype, Named, Typed
+// (also after a nil in the same variadic Typed), or TypedSubtype.
+func (w *hWorld) hValArg(i int, v hVal) Arg {
+	val := hMk(v.L.T, v.ID)
+	if w.Mode&32 == 0 {
+		return NamedSubtype(v.L.Name, val, v.L.Sub)
+	}
+	switch {
+	case v.L.Name == "" && v.L.Sub == "":
+		switch hPick("spelling", 4, i) {
+		case 1:
+			return Typed(val)
+		case 2:
+			return Typed(nil, val)
+		case 3:
+			return TypedSubtype(val, "")
+		}
+	case v.L.Name == "":
+		if hPick("spelling", 2, i) == 1 {
+			return TypedSubtype(val, v.L.Sub)
+		}
+	case v.L.Sub == "":
+		if hPick("spelling", 2, i) == 1 {
+			return Named(v.L.Name, val)
+		}
+	}
+	return NamedSubtype(v.L.Name, val, v.L.Sub)
+}
+
 // hBuildAll builds the target and every converter and returns the option list
 // (values, then converters) for a call.
 func (w *hWorld) hBuildAll() ([]Arg, bool) {
@@ -616,14 +647,24 @@ func (w *hWorld) hBuildAll() ([]Arg, bool) {
 	for k := 0; k < n; k++ {
 		w.Errs[k] = fmt.Errorf("harness error of function %d", k)
 	}
-	t, err := w.hBuild(w.Target)
+	var topts []Arg
+	if w.Mode&64 != 0 {
+		// the target carries DEFAULT values under the keys of its own parameters
+		// (different payloads): arguments given to Call take precedence over them
+		for i, p := range w.Target.In {
+			if p.T != hTI {
+				topts = append(topts, NamedSubtype(p.Name, hMk(p.T, vnPayload("shadowedDefault", i)), p.Sub))
+			}
+		}
+	}
+	t, err := w.hBuild(w.Target, topts...)
 	if err != nil {
 		return nil, false
 	}
 	w.Funcs[0] = t
 	var args []Arg
-	for _, v := range w.Vals {
-		args = append(args, NamedSubtype(v.L.Name, hMk(v.L.T, v.ID), v.L.Sub))
+	for i, v := range w.Vals {
+		args = append(args, w.hValArg(i, v))
 	}
 	for _, c := range w.Convs {
 		cf, err := w.hBuild(c)
